@@ -48,15 +48,11 @@ fn is_bit_set(rem: u8, limit: u8, bits: &mut Vec<bool>) {
     }
 }
 
+/// X.680 23.5, 23.6: a bstring or hstring that does not fill its last octet is read as if it
+/// had trailing zero bits up to the next multiple of eight
 pub(crate) fn bit_string_to_octet_string(bits: &[bool]) -> Result<Vec<u8>, GrammarError> {
     let mut octets = vec![];
     for byte in bits.chunks(8) {
-        if byte.len() != 8 {
-            return Err(GrammarError::new(
-                "Binary octet string value needs to be a multiple of 8 bits!",
-                GrammarErrorType::LinkerError,
-            ));
-        }
         octets.push(byte.iter().enumerate().fold(0u8, |acc, (i, bit)| {
             acc + if *bit { 2u8.pow(7 - i as u32) } else { 0 }
         }));
